@@ -1436,7 +1436,7 @@ func (c *Conn) executeQuery(ctx context.Context, qry *Query) *Iter {
 			numRows: x.numRows,
 		}
 
-		if params.skipMeta {
+		if params.skipMeta && x.meta.flags&flagNoMetaData == flagNoMetaData {
 			if info != nil {
 				iter.meta = info.response
 				iter.meta.pagingState = copyBytes(x.meta.pagingState)
